@@ -16,6 +16,12 @@
 (* range and reports the exponents for which the code leaves the model     *)
 (* (bucket underflow).                                                     *)
 (*                                                                         *)
+(* Observed on the pinned tree (XLA CPU flushes subnormals to zero), each   *)
+(* reported by the check under its own known-finding key:                  *)
+(*   max*2^e < N*2^-126       bucket flushed, whole column dequantises to 0 *)
+(*   bucket normal, |x| < 2^-126   the entry is read as 0 (payload 0, not 1) *)
+(*   max*2^e = FLT_MAX, eager      N*fl(max/N) overflows, to_float gives inf *)
+(*                                                                         *)
 (* SHAPE.  quantize() takes max|.| over axis 0, i.e. one scale per index   *)
 (* of the remaining axes.  The tensor is therefore a matrix Rows x Cols    *)
 (* where Cols enumerates the flattened trailing axes (rank 1: one column). *)
